@@ -295,6 +295,14 @@ def _unit_points(rng: Rng, n, kind):
         # uniform over the whole of [0,1] needs n-1 | 2^k; otherwise use step 2^-k on a sub-range and stretch by a dyadic
         pts = [Fraction(i, n - 1) if _pow2(n - 1) else Fraction(i, 2 ** k) for i in range(n)]
         return pts
+    if kind.startswith("nearly_uniform"):
+        # a regular grid whose spacings are jittered by a relative amount of about 2^-r (r = 7, 10, 17, 23: 1e-2 … 1e-7),
+        # all points exact dyadic rationals; `nearly_uniform:<r>`
+        r = int(kind.split(":")[1])
+        k = 0
+        while 2 ** k < n - 1:
+            k += 1
+        return [Fraction(i, 2 ** k) + Fraction(rng.randint(-1, 1) if 0 < i < n - 1 else 0, 2 ** (k + r)) for i in range(n)]
     bits = 10
     if kind == "ties":
         m = max(3, n // 2)
@@ -360,7 +368,9 @@ def _lp_case(rng: Rng, tier, force=None):
     big = tier == "thorough"
     if dim == 1:
         n = rng.choice([5, 6, 8, 12, 20, 33, 50, 64] + ([100, 129, 200, 201, 257] if big or rng.random() < 0.15 else []))
-        kind = rng.choice(["uniform", "scattered", "scattered", "unsorted", "ties"])
+        kind = force.get("design", rng.choice(["uniform", "scattered", "scattered", "unsorted", "ties", "nearly_uniform:10", "nearly_uniform:20"]))
+        if "n" in force:
+            n = force["n"]
         g = _unit_points(rng, n, "scattered" if kind == "unsorted" else kind)
         g2 = None
     else:
@@ -378,6 +388,8 @@ def _lp_case(rng: Rng, tier, force=None):
             g2 = [Fraction(rng.randint(0, 256), 256) for _ in range(n)]
     wide = rng.random() < 0.6
     hu = _bandwidth(rng, n, dim, wide)
+    if "hu" in force:
+        hu, wide = force["hu"], False
     ykind = rng.choice(["rand", "rand", "smooth", "step", "const"])
     amp = rng.choice([Fraction(1), Fraction(1), Fraction(1), Fraction(2 ** 20), Fraction(1, 2 ** 20)])
     y = [amp * t for t in _responses(rng, n, g, ykind)]
@@ -437,6 +449,11 @@ def _lp_case(rng: Rng, tier, force=None):
         alpha=rs(rng.dyadic(-3, 3, 2)), beta=rs(rng.dyadic(-3, 3, 2)),
         a=rs(a), b=rs(b), perm=perm, ykind=ykind, wide=wide,
     )
+    if dim == 1:
+        case["coefs"] = [rs(c) for c in coefs]
+        case["dom_lo_scale"] = [rs(lo), rs(scale)]
+        if force.get("own") or (kind.startswith(("uniform", "nearly_uniform")) and n <= 65 and rng.random() < 0.5):
+            case["own"] = True   # also evaluated at its own sampling points (x_new=None and x_new=x)
     if dim == 2:
         case["x2"] = [rs(t) for t in X(g2)]
         case["q2"] = [rs(t) for t in X(gq2)]
@@ -455,6 +472,12 @@ def gen_cases(rng: Rng, tier):
     for dom in DOMAINS:
         head.append(dict(dim=1, dom=dom, degree=2))
         head.append(dict(dim=2, dom=dom, degree=1))
+    # nearly regular designs evaluated at their own points: relative spacing jitter 2^-7 … 2^-23 and exactly regular
+    for j, (kernel, degree, r) in enumerate([("epanechnikov", 1, 7), ("epanechnikov", 2, 10), ("tricube", 1, 10), ("tricube", 3, 17), ("bisquare", 0, 10),
+                                             ("bisquare", 2, 23), ("gaussian", 1, 10), ("epanechnikov", 3, 13), ("tricube", 2, 20), ("bisquare", 1, 15)]):
+        head.append(dict(dim=1, kernel=kernel, degree=degree, design=f"nearly_uniform:{r}", own=True, n=[17, 33, 40, 65][j % 4],
+                         hu=[Fraction(1, 8), Fraction(3, 16), Fraction(1, 4)][j % 3], dom=["unit", "doy", "neg", "shift1000"][j % 4]))
+    head.append(dict(dim=1, kernel="epanechnikov", degree=1, design="uniform", own=True, n=33, hu=Fraction(1, 8), dom="unit"))
     for f in head:
         yield _lp_case(rng, tier, f)
     # the same relations through every entry point that smooths with LP and an explicit bandwidth, away from [0,1]
@@ -463,6 +486,9 @@ def gen_cases(rng: Rng, tier):
         for dom in ("doy", "shift1000") if tier == "quick" else ("doy", "shift1000", "neg", "milli", "unit"):
             yield c06_entries.gen_entry_case(rng, tier, dict(entry=entry, dom=dom))
             n_entry += 1
+    for entry, dom in (("dense_smooth", "unit"), ("dense_smooth", "doy"), ("dense_mean", "neg")):
+        yield c06_entries.gen_entry_case(rng, tier, dict(entry=entry, dom=dom, own=True))
+        n_entry += 1
     for k in range(n - len(head) - n_entry):
         r = k % 13
         if r in (3, 9):
@@ -639,6 +665,14 @@ def run_impl(case):
     lph.predict(y=y2, x=x, x_new=q[:1])
     lph.kernel_name, lph.bandwidth, lph.degree = case["kernel"], h, case["degree"]
     out["hist"] = lph.predict(y=y, x=x, x_new=q).tolist()
+    # evaluation at the design's own points (x_new=None -> unique sorted sampling points; x_new = the sampling points)
+    if case.get("own") and case["dim"] == 1:
+        ux = np.unique(x)
+        out["own_none"] = lp.predict(y=y, x=x).tolist()
+        out["own_x"] = lp.predict(y=y, x=x, x_new=x.copy()).tolist()
+        out["own_poly"] = lp.predict(y=yp, x=x).tolist()
+        ref_o, cond_o, npos_o = reference_wls(x, y, ux, h, case["kernel"], case["degree"])
+        out["_own_ref"], out["_own_cond"], out["_own_npos"] = ref_o, cond_o, npos_o
     # history on one object with the caller's arrays modified IN PLACE between the calls (one buffer reused for
     # successive designs / query sets); every step is compared with a fresh object
     xr, qc = _inplace_design(case)
@@ -749,8 +783,11 @@ def model_lines(case, impl):
     xr, qc = _inplace_design(case)
     R = lambda v: J(rs(t) for t in v)  # noqa: E731
     if case["dim"] == 1:
-        return [f"lp1 {case['kernel']} {case['h']} {case['degree']} {J(case['x'])} {J(case['y'])} {J(case['q'])}",
-                f"lp1 {case['kernel']} {case['h']} {case['degree']} {R(xr[0])} {J(case['y'])} {R(qc[0])}"]
+        ls = [f"lp1 {case['kernel']} {case['h']} {case['degree']} {J(case['x'])} {J(case['y'])} {J(case['q'])}",
+              f"lp1 {case['kernel']} {case['h']} {case['degree']} {R(xr[0])} {J(case['y'])} {R(qc[0])}"]
+        if case.get("own"):
+            ls.append(f"lp1 {case['kernel']} {case['h']} {case['degree']} {J(case['x'])} {J(case['y'])} {R(sorted(set(_Fv(case['x']))))}")
+        return ls
     return [f"lp2 {case['kernel']} {case['h']} {case['degree']} {J(case['x'])} {J(case['x2'])} {J(case['y'])} {J(case['q'])} {J(case['q2'])}",
             f"lp2 {case['kernel']} {case['h']} {case['degree']} {R(xr[0])} {R(xr[1])} {J(case['y'])} {R(qc[0])} {R(qc[1])}"]
 
@@ -762,7 +799,10 @@ def parse_model(case, outs):
         return dict(k=outs[0], monos=outs[1])
     if case["kind"] == "reject":
         return dict(err=outs[0])
-    return dict(est=outs[0].split(","), est4=outs[1].split(","))
+    d = dict(est=outs[0].split(","), est4=outs[1].split(","))
+    if len(outs) > 2:
+        d["est_own"] = outs[2].split(",")
+    return d
 
 
 def _scale(case):
@@ -837,6 +877,11 @@ def compare(case, impl, model):
             continue
         if not close(f, Fraction(m), sc, RTOL_MODEL):
             ds.append(f"query {j} (x0={case['q'][j]}{',' + case['q2'][j] if case['dim'] == 2 else ''}): impl {f!r} vs exact weighted least squares {float(Fraction(m))!r} (response scale {sc:.3g}, cond {impl['_cond'][j]:.3g})")
+    if "est_own" in model and "own_none" in impl:
+        for j, (f, m, c, k) in enumerate(zip(impl["own_none"], model["est_own"], impl["_own_cond"], impl["_own_npos"])):
+            if m != "s" and np.isfinite(c) and c <= COND_OK and k >= case["degree"] + 1 and not close(f, Fraction(m), sc, RTOL_MODEL):
+                ds.append(f"evaluation at the design's own points (x_new=None), point {j}: impl {f!r} vs exact weighted least squares {float(Fraction(m))!r} (design {case['design']}, n={case['n']}, h={case['h']})")
+                break
     need = case["degree"] + 1 if case["dim"] == 1 else len(monos2(case["degree"]))
     for j, (f, m, c, k) in enumerate(zip(impl["inpl4"], model["est4"], impl["_cond4"], impl["_npos4"])):
         if not np.isfinite(f):
@@ -928,6 +973,28 @@ def oracle(case, impl):
         # pointwise: the other query points do not matter
         if not near(impl["single"][j], f, sc, 1e-10):
             bad("pointwise", f"estimate {f!r} in a batch vs {impl['single'][j]!r} alone at {where}", dom)
+    # evaluation at the design's own points: WLS, polynomial reproduction, x_new=None vs x_new=x
+    if "own_none" in impl:
+        xs_ = np.array(fl(_Fv(case["x"])))
+        ux_, inv_ = np.unique(xs_, return_inverse=True)
+        lo_, scl_ = F(case["dom_lo_scale"][0]), F(case["dom_lo_scale"][1])
+        cf = [F(c) for c in case["coefs"]]
+        uxF = sorted(set(_Fv(case["x"])))
+        scp_ = max([abs(float(F(t))) for t in case["ypoly"]] + [1e-300])
+        for j in range(len(ux_)):
+            okj = np.isfinite(impl["_own_cond"][j]) and impl["_own_cond"][j] <= COND_OK and impl["_own_npos"][j] >= case["degree"] + 1
+            f = impl["own_none"][j]
+            if okj and not near(f, impl["_own_ref"][j], sc):
+                bad("wls", f"at the design's own point {rs(uxF[j])} (x_new=None) the estimate is {f!r} but kernel-weighted polynomial least squares gives {impl['_own_ref'][j]!r} (design {case['design']}, {case['kernel']}, degree {case['degree']}, h={case['h']}, n={case['n']})", dom + ["own_points"])
+            if okj:
+                t = (uxF[j] - lo_) / scl_
+                pv = float(sum(c * t ** k for k, c in enumerate(cf)))
+                if not near(impl["own_poly"][j], pv, scp_):
+                    bad("reproduces_polynomials", f"at the design's own point {rs(uxF[j])} a polynomial of degree {case['degree']} with value {pv!r} is estimated as {impl['own_poly'][j]!r} (design {case['design']}, {case['kernel']}, h={case['h']}, n={case['n']})", dom + ["own_points"])
+        for i_, f in enumerate(impl["own_x"]):
+            if not near(f, impl["own_none"][inv_[i_]], sc, 1e-10):
+                bad("pointwise", f"x_new = the sampling points gives {f!r} at {case['x'][i_]}, x_new=None gives {impl['own_none'][inv_[i_]]!r}", dom + ["own_points"])
+                break
     # degree 0 (Nadaraya–Watson) preserves the range of the responses carrying positive weight (C06.degree0_in_range)
     if case["degree"] == 0:
         xs = _arr(case, "x", "x2")
@@ -998,7 +1065,7 @@ def classify(case, impl):
         return ["kind:entry", "entry:" + c06_entries.ENTRY_NAME[case["entry"]], "domain:" + case["dom"], "kernel:" + case["kernel"], f"degree:{case['degree']}"]
     if case["kind"] != "lp":
         return ["kind:" + case["kind"]]
-    tags = ["kind:lp", f"dim:{case['dim']}", "kernel:" + case["kernel"], f"degree:{case['degree']}", "domain:" + case["dom"],
+    tags = (["own-points"] if case.get("own") else []) + ["kind:lp", f"dim:{case['dim']}", "kernel:" + case["kernel"], f"degree:{case['degree']}", "domain:" + case["dom"],
             "design:" + case["design"], "n:" + ("5-9" if case["n"] < 10 else "10-49" if case["n"] < 50 else "50-200"),
             "bandwidth:" + ("wide" if case["wide"] else "few-spacings")]
     if "__crash__" not in impl:
